@@ -52,9 +52,11 @@ Definition k4_lines (names : list ident) : list string :=
          ++ flat_map (fun k =>
               [ "ge_with|" +++ a +++ "|" +++ b +++ "|" +++ kind_s k +++ "|" +++ ge_s (ge_with_kind a b k);
                 "from_ge|" +++ a +++ "|" +++ b +++ "|" +++ kind_s k +++ "|" +++ de_s (from_guard_error (ge_with_kind a b k));
-                "abort_with|" +++ a +++ "|" +++ b +++ "|" +++ kind_s k +++ "|" +++ ao_s (abort_with (Build_tctx a "to" b) k) ])
+                "abort_with|" +++ a +++ "|" +++ b +++ "|" +++ kind_s k +++ "|" +++ ao_s (abort_with (Build_tctx a "to" b) k);
+                "abort_with_var|" +++ a +++ "|" +++ b +++ "|" +++ kind_s k +++ "|" +++ ao_s (abort_with (Build_tctx a "to" b) k) ])
               [AKGuard c; AKAction c; AKInvalid]
          ++ [ "abort_guard_expr|" +++ a +++ "|" +++ b +++ "|" +++ c +++ "|" +++ ao_s (abort_guard (Build_tctx a "to" b) c) ])
        names
-    ++ [ "abort_guard_ident|" +++ a +++ "|" +++ b +++ "|" +++ ao_s (abort_guard (Build_tctx a "to" b) "some_guard_ident") ])
+    ++ [ "abort_guard_ident|" +++ a +++ "|" +++ b +++ "|" +++ ao_s (abort_guard (Build_tctx a "to" b) "some_guard_ident");
+         "abort_guard_lit|" +++ a +++ "|" +++ b +++ "|" +++ ao_s (abort_guard (Build_tctx a "to" b) "a_string_literal") ])
     names) names.
